@@ -17,7 +17,8 @@ META = {
 }
 
 
-def job_regexp_to_nfa(job, depth, maxlen, syms='ab', shape=None):
+def job_regexp_to_nfa(job, depth, maxlen, syms='ab', shape=None, exh=12):
+    c.set_exhaustive(exh)
     from gambatools.regexp_algorithms import regexp_to_nfa
     from .regexp_sym import skeleton, shaped, Sem, regexp_json
     from .oracles import NfaView
@@ -35,6 +36,10 @@ def job_regexp_to_nfa(job, depth, maxlen, syms='ab', shape=None):
     job.lifted()
     if Nr is None:
         return job.solve()
+    if isinstance(Nr, L.U):
+        none_g = d.any_(g for g, v in Nr.alts if v is None)
+        job.oblige('regexp_to_nfa(r) returns an NFA', none_g, replay=rp)
+        Nr = E.mk([(g, v) for g, v in Nr.alts if v is not None])
     view = NfaView(Nr, None, syms)
     job.result['notes'].append('result NFA: %d candidate states' % len(view.names))
     sem = Sem()
@@ -48,7 +53,12 @@ def job_regexp_to_nfa(job, depth, maxlen, syms='ab', shape=None):
     return job.solve()
 
 
-def job_dfa_to_regexp(job, n, syms, maxlen, order='symbolic'):
+def job_dfa_to_regexp(job, n, syms, maxlen, order='symbolic', exh=14, perm=None):
+    c.set_exhaustive(exh)
+    if perm is not None:
+        # one job per elimination order (cube splitting over the schedule): perm-th permutation of the states
+        L.ORDER['concrete_perm'] = perm
+        job.result['notes'].append('state-elimination order: permutation #%d of the %d states (one job per permutation)' % (perm, n))
     from gambatools.regexp_algorithms import dfa_to_regexp
     from .regexp_sym import Sem, regexp_json
     from .oracles import DfaView
@@ -57,14 +67,19 @@ def job_dfa_to_regexp(job, n, syms, maxlen, order='symbolic'):
     d = E.dag
     syms = list(syms)
     if order == 'symbolic':
+        # the order in which states are ripped is the iteration order of Q - {start, accept}: symbolic (all n! orders);
+        # the two inner loops (which range over sets containing start / accept) keep a fixed order
         L.ORDER['mode'] = 'symbolic'
+        L.ORDER['filter'] = lambda elems: not any(str(e) in ('start', 'accept') for e in elems)
     Dm, names, _ = c.sym_dfa(n, len(syms), syms=syms)
     view = DfaView(Dm, names, syms)
     job.inputs['D'] = Dm
     job.decoders['D'] = view.to_json
-    rp = ('d2r', {'D': view.to_json, 'maxlen': maxlen})
+    rp = ('d2r', {'D': view.to_json, 'maxlen': maxlen, 'nseeds': 48})
     r = job.call(dfa_to_regexp, Dm, replay=rp)
     job.lifted()
+    if perm is not None and L.ORDER.get('log'):
+        rp[1]['rip_order'] = list(L.ORDER['log'][0])
     if r is None:
         return job.solve()
     sem = Sem()
@@ -77,29 +92,69 @@ def job_dfa_to_regexp(job, n, syms, maxlen, order='symbolic'):
     return job.solve()
 
 
+def _shapes(depth, max_leaves):
+    """all operator shapes of the given maximal depth with at most max_leaves leaves (0 = a symbolic leaf)"""
+    if depth == 0:
+        return [(0, 1)]
+    sub = _shapes(depth - 1, max_leaves)
+    out = [(0, 1)]
+    for s, n in sub:
+        out.append((['I', s], n))
+    for s, n in sub:
+        for t, m in sub:
+            if n + m <= max_leaves:
+                out.append((['S', s, t], n + m))
+                out.append((['C', s, t], n + m))
+    return out
+
+
+def _shape_name(s):
+    if s == 0:
+        return 'x'
+    if s[0] == 'I':
+        return 'I' + _shape_name(s[1])
+    return s[0] + _shape_name(s[1]) + _shape_name(s[2])
+
+
+def _depth(s):
+    return 0 if s == 0 else 1 + max(_depth(x) for x in s[1:])
+
+
 def jobs(tier):
     J = []
 
     def add(name, fn, timeout=None, **params):
         J.append({'name': name, 'fn': fn, 'params': params, **({'timeout': timeout} if timeout else {})})
     q = tier == 'quick'
-    tmo = 900 if q else 3000
-    add('r2n_d1_L4', job_regexp_to_nfa, depth=1, maxlen=4, timeout=tmo)
-    add('r2n_d2_L3', job_regexp_to_nfa, depth=2, maxlen=3, timeout=tmo)
-    add('r2n_star_of_concat_of_stars', job_regexp_to_nfa, depth=3, maxlen=3, shape=['I', ['C', ['I', 0], ['I', 0]]], timeout=tmo)
-    add('r2n_star_of_d2', job_regexp_to_nfa, depth=3, maxlen=3, shape=['I', 2] if not q else ['I', ['C', 1, 1]], timeout=tmo)
-    add('r2n_concat_star_d1', job_regexp_to_nfa, depth=3, maxlen=3, shape=['C', ['I', 1], ['I', 1]], timeout=tmo)
-    add('r2n_sum_star_d1', job_regexp_to_nfa, depth=3, maxlen=3, shape=['S', ['I', 1], 1], timeout=tmo)
-    add('r2n_digits', job_regexp_to_nfa, depth=1, maxlen=3, syms='01', timeout=tmo)
-    add('d2r_n2_ab', job_dfa_to_regexp, n=2, syms='ab', maxlen=4, timeout=tmo)
-    add('d2r_n2_01', job_dfa_to_regexp, n=2, syms='01', maxlen=4, timeout=tmo)
-    add('d2r_n2_abc', job_dfa_to_regexp, n=2, syms='abc', maxlen=3, timeout=tmo)
-    add('d2r_n3_a', job_dfa_to_regexp, n=3, syms='a', maxlen=5, timeout=tmo)
+    tmo = 600 if q else 3000
+    # regexp -> NFA: every operator shape (structure concrete = cube splitting on the operator choices), leaves symbolic
+    # over {Zero, One, a, b}: together all trees of depth <= 2 (quick) / all trees of depth <= 3 with <= 4 leaves (thorough)
+    import math
+    for s, nl in _shapes(2 if q else 3, 4):
+        add('r2n_%s' % _shape_name(s), job_regexp_to_nfa, depth=_depth(s), maxlen=4 if (nl <= 2 or not q) else 3, shape=s, timeout=tmo)
+    if q:
+        for s in (['I', ['C', ['I', 0], ['I', 0]]], ['I', ['S', ['C', 0, 0], 0]], ['C', ['I', ['S', 0, 0]], ['I', 0]],
+                  ['I', ['C', 0, ['I', ['S', 0, 0]]]], ['S', ['I', ['C', 0, 0]], ['C', 0, 0]], ['C', ['C', 0, ['I', 0]], ['S', 0, 0]]):
+            add('r2n_%s' % _shape_name(s), job_regexp_to_nfa, depth=_depth(s), maxlen=3, shape=s, timeout=tmo)
+    for s in (['S', ['C', 0, 0], 0], ['I', ['S', 0, 0]], ['C', ['I', 0], 0]):
+        add('r2n_digits_%s' % _shape_name(s), job_regexp_to_nfa, depth=_depth(s), maxlen=3, shape=s, syms='01', timeout=tmo)
+    # DFA -> regexp: all DFAs, one job per state-elimination order (cube splitting over the schedule) plus fully symbolic order for n = 2
     add('d2r_n1_ab', job_dfa_to_regexp, n=1, syms='ab', maxlen=3, timeout=tmo)
+    add('d2r_n2_ab_symbolic_order', job_dfa_to_regexp, n=2, syms='ab', maxlen=4, timeout=tmo)
+    add('d2r_n2_a_symbolic_order', job_dfa_to_regexp, n=2, syms='a', maxlen=5, timeout=tmo)
+    for syms, ml in (('ab', 5), ('01', 4), ('abc', 3)):
+        for p in range(2):
+            add('d2r_n2_%s_p%d' % (syms, p), job_dfa_to_regexp, n=2, syms=syms, maxlen=ml, perm=p, timeout=tmo)
+    for p in range(6):
+        add('d2r_n3_a_p%d' % p, job_dfa_to_regexp, n=3, syms='a', maxlen=6, perm=p, timeout=tmo)
+        add('d2r_n3_ab_p%d' % p, job_dfa_to_regexp, n=3, syms='ab', maxlen=4 if q else 5, perm=p, exh=15, timeout=tmo)
     if not q:
-        add('d2r_n3_ab', job_dfa_to_regexp, n=3, syms='ab', maxlen=4, timeout=tmo)
-        add('r2n_d3_sum', job_regexp_to_nfa, depth=3, maxlen=3, shape=['S', 2, 2], timeout=tmo)
-        add('r2n_d3_concat', job_regexp_to_nfa, depth=3, maxlen=3, shape=['C', 2, 2], timeout=tmo)
+        add('r2n_d1_L4', job_regexp_to_nfa, depth=1, maxlen=4, timeout=tmo)
+        add('r2n_star_of_d1', job_regexp_to_nfa, depth=2, maxlen=3, shape=['I', 1], timeout=tmo)
+        for p in range(24):
+            add('d2r_n4_a_p%d' % p, job_dfa_to_regexp, n=4, syms='a', maxlen=6, perm=p, exh=16, timeout=tmo)
+        for p in range(6):
+            add('d2r_n3_01_p%d' % p, job_dfa_to_regexp, n=3, syms='01', maxlen=4, perm=p, exh=15, timeout=tmo)
     return J
 
 
@@ -119,14 +174,44 @@ def _replay_r2n(rp):
     return got != exp, {'regexp': str(r), 'differs on': sorted(got ^ exp, key=lambda w: (len(w), w))[:4]}
 
 
+class _OrderedStates(set):
+    """a set of states whose differences iterate in a prescribed order (the elimination order chosen by the solver);
+    used to drive the real gnfa_minimize along that order when the current hash seed happens to produce another one"""
+
+    def __init__(self, items, order):
+        super().__init__(items)
+        self._order = list(order)
+
+    def __sub__(self, other):
+        rest = set(self).difference(other)
+        return [q for q in self._order if q in rest] + [q for q in rest if q not in self._order]
+
+
 def _replay_d2r(rp):
-    from gambatools.regexp_algorithms import dfa_to_regexp
+    from gambatools.regexp_algorithms import dfa_to_regexp, dfa_to_gnfa, gnfa_minimize
     D = nat.mk_dfa(rp['D'])
     before = nat.dfa_json_of(D)
     try:
         r = dfa_to_regexp(D)
     except Exception as e:
         return True, {'library raised': repr(e)}
+    ok, detail = _judge_d2r(rp, D, before, r)
+    if ok or not rp.get('rip_order'):
+        return ok, detail
+    # same DFA, the real gnfa_minimize, states ripped in the order of the counterexample
+    try:
+        G = dfa_to_gnfa(D)
+        G.Q = _OrderedStates(G.Q, rp['rip_order'])
+        gnfa_minimize(G)
+        r = G.delta[G.q_start, G.q_accept]
+    except Exception as e:
+        return True, {'library raised': repr(e), 'rip order': rp['rip_order']}
+    ok, detail = _judge_d2r(rp, D, before, r)
+    detail['rip order forced'] = rp['rip_order']
+    return ok, detail
+
+
+def _judge_d2r(rp, D, before, r):
     n = rp['maxlen'] + 1
     words = nat.words_upto(rp['D']['Sigma'], n)
     exp = {w for w in words if nat.ref_dfa_accepts(rp['D'], w)}
